@@ -18,4 +18,12 @@ for f in refactorings/R*.diff; do
   git -C /repo worktree remove --force $wt
 done
 rm -f /tmp/refcheck.out /tmp/refcheck.err
+# the 36 changes written by independent sub-agents (about an hour): tools/refcheck.sh quick all
+if [ "$2" = "all" ]; then
+  for f in refactorings/independent/*.diff; do
+    out=$(tools/tryref.sh $f $tier 2>&1 | tail -3 | tr '\n' ' ')
+    echo "$(basename $f .diff): $out"
+    echo "$out" | grep -q "rc=[1-9]\|DOES NOT\|FAILS" && bad=1
+  done
+fi
 exit $bad
